@@ -206,7 +206,10 @@ macro_rules! Header {
             }
             pub fn get(&self, name: &str) -> Option<&str> {
                 let value = self.custom.as_ref()
-                    .and_then(|custom| custom.get(&Slice::from_bytes(name.as_bytes())))
+                    .and_then(|custom| custom.iter()
+                        .find(|(k, _)| unsafe {k.as_bytes()}.eq_ignore_ascii_case(name.as_bytes()))
+                        .map(|(_, v)| v)
+                    )
                     .or_else(|| {
                         let standard = Header::from_bytes_ignore_case(name.as_bytes())?;
                         unsafe {self.standard.get(standard as usize)}
@@ -355,6 +358,12 @@ impl Headers {
         }
 
         let c = unsafe {self.custom.as_mut().unwrap_unchecked()};
+
+        /* field names are case-insensitive */
+        let name = c.keys()
+            .find(|k| unsafe {k.as_bytes().eq_ignore_ascii_case(name.as_bytes())})
+            .cloned()
+            .unwrap_or(name);
 
         match c.get_mut(&name) {
             Some(v) => unsafe {
